@@ -859,6 +859,8 @@ func TestC17(t *testing.T) {
 	for _, s := range corpusStrings("FuzzC17") {
 		c17Check(t, rec, &c17case{Input: s, Class: "corpus"})
 	}
+	c17Concurrent(t, rec)
+
 	rapid.Check(t, func(rt *rapid.T) {
 		for _, cs := range genC17Batch(rt) {
 			in := cs.Input
@@ -892,4 +894,97 @@ func FuzzC17(f *testing.F) {
 		}
 		c17Check(t, rec, &c17case{Input: s, Class: "fuzz"})
 	})
+}
+
+// c17Concurrent: Build called from 8 goroutines at once for different strings
+// (valid ones, and ones that must be rejected by the prototype / variable
+// checks although they parse). Each result must be the one Build gives for the
+// same string when called alone: same accept/reject decision and, if built, the
+// same verdicts on the fixed requests.
+func c17Concurrent(t *testing.T, rec *ev.Rec) {
+	type item struct {
+		in      string
+		mustRej string
+	}
+	pool := []item{
+		{`req_path_in("/api/list", false)`, ""}, {`req_path_in("/api/list")`, "wrong-arity"},
+		{`req_method_in("GET")`, ""}, {`req_method_in("GET", true)`, "wrong-arity"},
+		{`default_t()`, ""}, {`req_path_in("/api/list", "false")`, "wrong-type"},
+		{`req_host_in("example.org") && !req_proto_secure()`, ""}, {`nosuch_primitive("x")`, "unknown-primitive"},
+		{`req_cip_range("10.0.0.0", "10.255.255.255")`, ""}, {`news_host && default_t()`, "unresolved-variable"},
+		{`req_query_key_in("uid") || req_method_in("POST")`, ""}, {`req_cookie_key_in("uid", "x")`, "wrong-arity"},
+		{`!req_method_in("GET")`, ""}, {`req_query_value_in("uid", "1")`, "wrong-arity"},
+		{`req_method_in("POST")`, ""}, {`req_path_in("/api/list", false) &&`, "syntax"},
+	}
+	reqs := c17Reqs(t)
+	verdicts := func(c condition.Condition) string {
+		v := ""
+		for _, req := range reqs[:2] { // the two requests without wall-clock dependent parts
+			req.Query, req.CookieMap = nil, nil
+			if c.Match(req) {
+				v += "T"
+			} else {
+				v += "F"
+			}
+		}
+		return v
+	}
+	// sequential baseline
+	base := make([]string, len(pool))
+	for i, it := range pool {
+		r := c17Build(it.in)
+		switch {
+		case r.hung || r.panicked != nil:
+			return // reported by the sequential part of the check
+		case r.err != nil:
+			base[i] = "error"
+		default:
+			base[i] = "built:" + verdicts(r.cond)
+		}
+		if it.mustRej != "" && base[i] != "error" {
+			return // reported by the sequential part of the check
+		}
+	}
+	batches := ev.N(40, 400)
+	const width, reps = 8, 25
+	for b := 0; b < batches; b++ {
+		idx := make([]int, width)
+		inputs := make([]string, width)
+		for g := 0; g < width; g++ {
+			idx[g] = (b*width + g*(1+b%3)) % len(pool)
+			if b%4 == 3 {
+				idx[g] = (2*g + b%2 + 8*(b%2)) % len(pool)
+			}
+			inputs[g] = pool[idx[g]].in
+		}
+		res := concurrentBuild(inputs, reps)
+		for g := range res {
+			for _, one := range res[g] {
+				it := pool[idx[g]]
+				rec.Case("concurrent|"+it.in, false, "class:concurrent-build")
+				w := map[string]any{"input": it.in, "batch": inputs, "sequential": base[idx[g]]}
+				if one.panicked != nil {
+					rec.Fail(t, "concurrent-build-panic", w, "concurrent Build(%q) panicked in %s: %v", it.in, one.site, one.panicked)
+					return
+				}
+				if (one.cond != nil) == (one.err != nil) {
+					rec.Fail(t, "cond-xor-error", w, "concurrent Build(%q) returned cond=%v err=%v", it.in, one.cond, one.err)
+					return
+				}
+				got := "error"
+				if one.err == nil {
+					got = "built:" + verdicts(one.cond)
+				}
+				if got != base[idx[g]] {
+					key := "concurrent-build-differs-from-sequential"
+					if it.mustRej != "" && one.err == nil {
+						key = "concurrent-accepted-" + it.mustRej
+					}
+					rec.Fail(t, key, w, "Build(%q) alone gives %s, but %s while 7 other goroutines were building %q", it.in, base[idx[g]], got, inputs)
+					return
+				}
+			}
+		}
+	}
+	rec.Set("concurrent_batches", int64(batches))
 }
